@@ -16,7 +16,7 @@ func init() {
 		Rules: []*Rule{
 			{ID: "C16.snapshot-before-release", Floor: 2, Clause: "Wait reads c.ch (under c.m) before c.L.Unlock() on every path and its select receives from that snapshot, not from a re-read",
 				Run: ruleCondSnapshot},
-			{ID: "C16.lock-state", Floor: 3, Clause: "a nil return of Wait is preceded by c.L.Lock() in the wake-up arm; an error return occurs only in the ctx.Done() arm, is ctx.Err(), and no c.L.Lock() lies on its path; the wake-up arm never returns an error (a consumed wake-up is never swallowed)",
+			{ID: "C16.lock-state", Floor: 4, Clause: "a nil return of Wait is preceded by c.L.Lock() in the wake-up arm; an error return occurs only in the ctx.Done() arm, is ctx.Err(), and no c.L.Lock() lies on its path; the wake-up arm never returns an error (a consumed wake-up is never swallowed)",
 				Run: ruleCondLockState},
 			{ID: "C16.lockset", Floor: 4, Clause: "c.ch is read with c.m held (R or W) and written only with c.m held for writing; Broadcast closes the old channel before installing the new one",
 				Run: func(c *Ctx, r *R) {
@@ -322,6 +322,53 @@ func ruleCondLockState(c *Ctx, r *R) {
 			}
 		}
 		rets = append(rets, retState{ret, st, returnedValue(ret, 0)})
+	}
+	// a wake-up token is taken off the channel only by the wait itself (after c.L was released), and only once: a receive
+	// before the release ("drop a stale token") steals the token of a waiter that has already unlocked but not yet parked; a
+	// second receive after the wake-up eats the next waiter's
+	type recvAt struct {
+		in ssa.Instruction
+		st StateSet
+	}
+	var recvs []recvAt
+	for in, st := range before {
+		switch x := in.(type) {
+		case *ssa.UnOp:
+			if x.Op == token.ARROW {
+				if _, isCtx := ctxDoneOf(x.X); !isCtx && chanElemIsEmptyStruct(x.X.Type()) {
+					recvs = append(recvs, recvAt{in, st})
+				}
+			}
+		case *ssa.Select:
+			for _, ss0 := range x.States {
+				if ss0.Dir != types.RecvOnly || !chanElemIsEmptyStruct(ss0.Chan.Type()) {
+					continue
+				}
+				if _, isCtx := ctxDoneOf(ss0.Chan); !isCtx {
+					recvs = append(recvs, recvAt{in, st})
+				}
+			}
+		}
+	}
+	sort.SliceStable(recvs, func(i, j int) bool { return recvs[i].in.Pos() < recvs[j].in.Pos() })
+	for i, rc := range recvs {
+		early, again := false, false
+		rc.st.each(func(q int) {
+			if q&cUNL == 0 {
+				early = true
+			}
+			if q&cWOKE != 0 {
+				again = true
+			}
+		})
+		why := ""
+		switch {
+		case early:
+			why = "before c.L is released: the token was sent for a waiter that has already unlocked and is about to park"
+		case again:
+			why = "after this Wait was already woken: the token belongs to another waiter"
+		}
+		r.ok(!early && !again, "xsync.ContextCond.Wait|consumes-only-its-wakeup#"+itoa(i+1), rc.in.Pos(), "Wait takes a wake-up off the channel "+why+" - that waiter's Signal is lost")
 	}
 	sort.SliceStable(rets, func(i, j int) bool { return rets[i].ret.Pos() < rets[j].ret.Pos() })
 	sawNil, sawErr := false, false
